@@ -168,6 +168,7 @@ def random_run(am, cfg, rng, nevents):
   run = AggRun(am, cfg)
   run.build()
   vid = 0
+  pending = None
   try:
     for _ in range(nevents):
       x = rng.random()
@@ -184,6 +185,7 @@ def random_run(am, cfg, rng, nevents):
           if vid < 24:
             vid += 1
             run.input(s_, iv + rng.randint(0, F - 1), vid)
+            pending = (s_, iv)          # the interval touched last: it gets another value right after the next flush
       elif x < 0.55 and vid < 24:
         vid += 1
         r = rng.random()
@@ -203,6 +205,10 @@ def random_run(am, cfg, rng, nevents):
           run.input(rng.randint(1, NS), ts, vid)
       else:
         run.tick()
+        if pending is not None and vid < 26 and int(run.ftime.now) % cfg['F'] == 0:
+          vid += 1
+          run.input(pending[0], pending[1] + rng.randint(0, cfg['F'] - 1), vid)
+          pending = None
     for _ in range((cfg['M'] + 4) * cfg['F']):              # let everything expire: idle series released
       run.tick()
   finally:
